@@ -179,30 +179,61 @@ inductive Draw
 
 abbrev Tape := List Draw
 
+/-- Why a run of the model produced no result.
+`tapeEnd`  — the code asked for another draw and the tape is exhausted;
+`mismatch` — the next draw is not an answer to the call the code makes (other function, other
+             arguments, result outside the function's contract): an ill-typed tape;
+`raised`   — the Python code raises (IndexError of `random.choice([])` / of indexing past the end,
+             ValueError of `randrange` on an empty range / of the `__setitem__` guard …);
+`fuel`     — the iteration bound of a modelled loop ran out (shown never to happen). -/
+inductive Fault | tapeEnd | mismatch | raised | fuel
+  deriving DecidableEq, Repr
+
+/-- result of a modelled call -/
+abbrev R (α : Type) := Except Fault α
+
+/-- a Python exception of a pure list-level helper -/
+def liftO {α : Type} : Option α → R α
+  | some x => .ok x
+  | none => .error .raised
+
 /-- `random.choice(seq)`; `IndexError` on the empty sequence -/
-def popChoice {α : Type} (seq : List α) : Tape → Option (α × Tape)
-  | .choice n i :: tp => if n = seq.length then (seq[i]?).map (fun x => (x, tp)) else none
-  | _ => none
+def popChoice {α : Type} (seq : List α) (tp : Tape) : R (α × Tape) :=
+  if seq.isEmpty then .error .raised
+  else match tp with
+    | [] => .error .tapeEnd
+    | .choice n i :: tp =>
+      if n = seq.length then
+        match seq[i]? with
+        | some x => .ok (x, tp)
+        | none => .error .mismatch
+      else .error .mismatch
+    | _ :: _ => .error .mismatch
 
-/-- `random.randrange(a, b)` -/
-def popRange (a b : Nat) : Tape → Option (Nat × Tape)
-  | .randrange a' b' x :: tp => if a' = a ∧ b' = b ∧ a ≤ x ∧ x < b then some (x, tp) else none
-  | _ => none
+/-- `random.randrange(a, b)`; `ValueError` on an empty range -/
+def popRange (a b : Nat) (tp : Tape) : R (Nat × Tape) :=
+  if ¬ a < b then .error .raised
+  else match tp with
+    | [] => .error .tapeEnd
+    | .randrange a' b' x :: tp => if a' = a ∧ b' = b ∧ a ≤ x ∧ x < b then .ok (x, tp) else .error .mismatch
+    | _ :: _ => .error .mismatch
 
-def popRnd : Tape → Option (Float × Tape)
-  | .rnd x :: tp => some (x, tp)
-  | _ => none
+def popRnd : Tape → R (Float × Tape)
+  | [] => .error .tapeEnd
+  | .rnd x :: tp => .ok (x, tp)
+  | _ :: _ => .error .mismatch
 
 /-- `term = term()` for an ephemeral class (gp.py:642-643, 794-795, 862-863, 827): the value
 comes from the user's generator function; the one drawn by the generator is on the tape as a
 `randint` (the harness' generators are `random.randint(lo, hi)`), `repr` of an int is its
 decimal text. -/
-def instantiate (p : Prim) (tp : Tape) : Option (Prim × Tape) :=
+def instantiate (p : Prim) (tp : Tape) : R (Prim × Tape) :=
   if p.kind = .eph then
     match tp with
-    | .randint _ _ x :: tp' => some ({ p with text := toString x }, tp')
-    | _ => none
-  else some (p, tp)
+    | [] => .error .tapeEnd
+    | .randint _ _ x :: tp' => .ok ({ p with text := toString x }, tp')
+    | _ :: _ => .error .mismatch
+  else .ok (p, tp)
 
 /-! ## List level: `PrimitiveTree` methods -/
 
@@ -260,60 +291,65 @@ inductive GenMode | full | grow
 
 /-- `condition(height, depth)`: gp.py:550-552 (full), gp.py:570-575 (grow; `or`/`and`
 short-circuit, so `random.random()` is called only when `depth ≠ height ∧ depth ≥ min_`). -/
-def condition (mode : GenMode) (ps : Pset) (min_ h d : Nat) (tp : Tape) : Option (Bool × Tape) :=
+def condition (mode : GenMode) (ps : Pset) (min_ h d : Nat) (tp : Tape) : R (Bool × Tape) :=
   match mode with
-  | .full => some (d == h, tp)
+  | .full => .ok (d == h, tp)
   | .grow =>
-    if d == h then some (true, tp)
-    else if d ≥ min_ then (popRnd tp).map (fun (x, tp') => (decide (x < ps.terminalRatio), tp'))
-    else some (false, tp)
+    if d == h then .ok (true, tp)
+    else if d ≥ min_ then
+      match popRnd tp with
+      | .error e => .error e
+      | .ok (x, tp') => .ok (decide (x < ps.terminalRatio), tp')
+    else .ok (false, tp)
 
 /-- the `while len(stack) != 0` loop (gp.py:632-655); head of `stack` = top.  `fuel` bounds the
-number of iterations; every iteration consumes at least one draw, so `fuel = tape length`
-never runs out before the tape does. -/
-def genLoop (mode : GenMode) (ps : Pset) (min_ h : Nat) : Nat → List (Nat × Nat) → Tape → Option (List Prim × Tape)
-  | _, [], tp => some ([], tp)
-  | 0, _ :: _, _ => none
+number of iterations; every iteration consumes at least one draw, so `fuel = tape length + 1`
+never runs out before the tape does (`C11.gen_total`: the fault `fuel` does not occur). -/
+def genLoop (mode : GenMode) (ps : Pset) (min_ h : Nat) : Nat → List (Nat × Nat) → Tape → R (List Prim × Tape)
+  | _, [], tp => .ok ([], tp)
+  | 0, _ :: _, _ => .error .fuel
   | fuel + 1, (d, τ) :: st, tp =>
     match condition mode ps min_ h d tp with
-    | none => none
-    | some (true, tp) =>
+    | .error e => .error e
+    | .ok (true, tp) =>
       match popChoice (ps.terms τ) tp with                       -- :636
-      | none => none
-      | some (term, tp) =>
+      | .error e => .error e
+      | .ok (term, tp) =>
         match instantiate term tp with                            -- :642-643
-        | none => none
-        | some (term, tp) =>
+        | .error e => .error e
+        | .ok (term, tp) =>
           match genLoop mode ps min_ h fuel st tp with
-          | none => none
-          | some (rest, tp) => some (term :: rest, tp)             -- :644
-    | some (false, tp) =>
+          | .error e => .error e
+          | .ok (rest, tp) => .ok (term :: rest, tp)               -- :644
+    | .ok (false, tp) =>
       match popChoice (ps.prims τ) tp with                       -- :647
-      | none => none
-      | some (prim, tp) =>
+      | .error e => .error e
+      | .ok (prim, tp) =>
         -- :654-655 pushes reversed(args), so the first argument is on top
         match genLoop mode ps min_ h fuel (prim.args.map (fun a => (d + 1, a)) ++ st) tp with
-        | none => none
-        | some (rest, tp) => some (prim :: rest, tp)               -- :653
+        | .error e => .error e
+        | .ok (rest, tp) => .ok (prim :: rest, tp)                 -- :653
 
 /-- `generate(pset, min_, max_, condition, type_)` (gp.py:607-656); `type_ = None` is resolved
 by the caller (`ps.ret`). -/
-def generate (mode : GenMode) (ps : Pset) (min_ max_ : Nat) (τ : Nat) (tp : Tape) : Option (List Prim × Tape) :=
-  match tp with
+def generate (mode : GenMode) (ps : Pset) (min_ max_ : Nat) (τ : Nat) (tp : Tape) : R (List Prim × Tape) :=
+  if max_ < min_ then .error .raised                               -- randint on an empty range
+  else match tp with
+  | [] => .error .tapeEnd
   | .randint a b x :: tp' =>                                       -- :630
     if a = (min_ : Int) ∧ b = (max_ : Int) ∧ a ≤ x ∧ x ≤ b then
-      genLoop mode ps min_ x.toNat tp'.length [(0, τ)] tp'
-    else none
-  | _ => none
+      genLoop mode ps min_ x.toNat (tp'.length + 1) [(0, τ)] tp'
+    else .error .mismatch
+  | _ :: _ => .error .mismatch
 
 def genFull (ps : Pset) (min_ max_ τ : Nat) (tp : Tape) := generate .full ps min_ max_ τ tp
 def genGrow (ps : Pset) (min_ max_ τ : Nat) (tp : Tape) := generate .grow ps min_ max_ τ tp
 
 /-- gp.py:593-594: `random.choice((genGrow, genFull))` -/
-def genHalfAndHalf (ps : Pset) (min_ max_ τ : Nat) (tp : Tape) : Option (List Prim × Tape) :=
+def genHalfAndHalf (ps : Pset) (min_ max_ τ : Nat) (tp : Tape) : R (List Prim × Tape) :=
   match popChoice [GenMode.grow, GenMode.full] tp with
-  | none => none
-  | some (m, tp) => generate m ps min_ max_ τ tp
+  | .error e => .error e
+  | .ok (m, tp) => generate m ps min_ max_ τ tp
 
 /-! ## Crossovers (gp.py:663-755) -/
 
@@ -322,8 +358,7 @@ def idxGo {α : Type} (f : α → Bool) : List α → Nat → List Nat
   | [], _ => []
   | x :: l, i => if f x then i :: idxGo f l (i + 1) else idxGo f l (i + 1)
 
-/-- indices `idx ≥ 1` whose node satisfies `f` (the `enumerate(ind[1:], 1)` loops;
-`f = fun _ => true` gives `list(range(1, len(ind)))`) -/
+/-- indices `idx ≥ 1` whose node satisfies `f` (the `enumerate(ind[1:], 1)` loops) -/
 def idxFrom1 (f : Prim → Bool) (l : List Prim) : List Nat := idxGo f (l.drop 1) 1
 
 /-- keys of `types` in insertion order -/
@@ -335,166 +370,185 @@ def commonTypes (f1 f2 : Prim → Bool) (l1 l2 : List Prim) : List Nat :=
   (keysOf f1 l1).filter (fun τ => (keysOf f2 l2).contains τ)
 
 /-- `random.choice(list(common_types))` -/
-def popPick (common : List Nat) : Tape → Option (Nat × Tape)
-  | .pick n τ :: tp => if n = common.length ∧ common.contains τ then some (τ, tp) else none
-  | _ => none
+def popPick (common : List Nat) (tp : Tape) : R (Nat × Tape) :=
+  if common.isEmpty then .error .raised
+  else match tp with
+    | [] => .error .tapeEnd
+    | .pick n τ :: tp => if n = common.length ∧ common.contains τ then .ok (τ, tp) else .error .mismatch
+    | _ :: _ => .error .mismatch
 
 /-- gp.py:693-698 / 748-753, given the candidate index lists of the chosen type -/
-def swapAt (ind1 ind2 : List Prim) (c1 c2 : List Nat) (tp : Tape) : Option (List Prim × List Prim × Tape) :=
+def swapAt (ind1 ind2 : List Prim) (c1 c2 : List Nat) (tp : Tape) : R (List Prim × List Prim × Tape) :=
   match popChoice c1 tp with
-  | none => none
-  | some (i1, tp) =>
+  | .error e => .error e
+  | .ok (i1, tp) =>
     match popChoice c2 tp with
-    | none => none
-    | some (i2, tp) =>
+    | .error e => .error e
+    | .ok (i2, tp) =>
       match searchSubtree ind1 i1, searchSubtree ind2 i2 with
       | some (b1, e1), some (b2, e2) =>
         -- right-hand side first, then the two slice assignments, left to right
         let s2 := getSlice ind2 b2 e2
         let s1 := getSlice ind1 b1 e1
         match setSlice ind1 b1 e1 s2, setSlice ind2 b2 e2 s1 with
-        | some r1, some r2 => some (r1, r2, tp)
-        | _, _ => none
-      | _, _ => none
+        | some r1, some r2 => .ok (r1, r2, tp)
+        | _, _ => .error .raised
+      | _, _ => .error .raised
 
 /-- `cxOnePoint` (gp.py:684-714; the per-type index lists are always built) -/
-def cxOnePoint (ind1 ind2 : List Prim) (tp : Tape) : Option (List Prim × List Prim × Tape) :=
-  if ind1.length < 2 ∨ ind2.length < 2 then some (ind1, ind2, tp)       -- :691
+def cxOnePoint (ind1 ind2 : List Prim) (tp : Tape) : R (List Prim × List Prim × Tape) :=
+  if ind1.length < 2 ∨ ind2.length < 2 then .ok (ind1, ind2, tp)       -- :691
   else
     let common := commonTypes (fun _ => true) (fun _ => true) ind1 ind2  -- :696-702
     if common.length > 0 then                                            -- :704
       match popPick common tp with                                       -- :705
-      | none => none
-      | some (τ, tp) =>
+      | .error e => .error e
+      | .ok (τ, tp) =>
         swapAt ind1 ind2 (idxFrom1 (fun p => p.ret == τ) ind1) (idxFrom1 (fun p => p.ret == τ) ind2) tp
-    else some (ind1, ind2, tp)
+    else .ok (ind1, ind2, tp)
 
 /-- `terminal_op = partial(eq, 0)` / `primitive_op = partial(lt, 0)` (gp.py:726-727) -/
 def arityOp (terminal : Bool) (p : Prim) : Bool := if terminal then p.arity == 0 else decide (0 < p.arity)
 
 /-- `cxOnePointLeafBiased` (gp.py:703-755) -/
-def cxOnePointLeafBiased (ind1 ind2 : List Prim) (termpb : Float) (tp : Tape) : Option (List Prim × List Prim × Tape) :=
-  if ind1.length < 2 ∨ ind2.length < 2 then some (ind1, ind2, tp)       -- :721
+def cxOnePointLeafBiased (ind1 ind2 : List Prim) (termpb : Float) (tp : Tape) : R (List Prim × List Prim × Tape) :=
+  if ind1.length < 2 ∨ ind2.length < 2 then .ok (ind1, ind2, tp)       -- :721
   else
     match popRnd tp with
-    | none => none
-    | some (x1, tp) =>
+    | .error e => .error e
+    | .ok (x1, tp) =>
       match popRnd tp with
-      | none => none
-      | some (x2, tp) =>
+      | .error e => .error e
+      | .ok (x2, tp) =>
         -- terminal_op = (0 == arity), primitive_op = (0 < arity)            :726-729
         let op1 : Prim → Bool := arityOp (decide (x1 < termpb))
         let op2 : Prim → Bool := arityOp (decide (x2 < termpb))
         let common := commonTypes op1 op2 ind1 ind2
         if common.length > 0 then                                        -- :745
           match popPick common tp with
-          | none => none
-          | some (τ, tp) =>
+          | .error e => .error e
+          | .ok (τ, tp) =>
             swapAt ind1 ind2 (idxFrom1 (fun p => op1 p && p.ret == τ) ind1)
               (idxFrom1 (fun p => op2 p && p.ret == τ) ind2) tp
-        else some (ind1, ind2, tp)
+        else .ok (ind1, ind2, tp)
 
 /-! ## Mutations (gp.py:761-900) -/
 
 /-- `mutUniform` (gp.py:761-775); `expr` = the replacement generator, called with the type of
 the chosen node. -/
-def mutUniform (ind : List Prim) (expr : Nat → Tape → Option (List Prim × Tape)) (tp : Tape) :
-    Option (List Prim × Tape) :=
+def mutUniform (ind : List Prim) (expr : Nat → Tape → R (List Prim × Tape)) (tp : Tape) :
+    R (List Prim × Tape) :=
   match popRange 0 ind.length tp with                                   -- :771
-  | none => none
-  | some (index, tp) =>
+  | .error e => .error e
+  | .ok (index, tp) =>
     match searchSubtree ind index, ind[index]? with                      -- :772-773
     | some (b, e), some node =>
       match expr node.ret tp with                                        -- :774
-      | none => none
-      | some (new, tp) => (setSlice ind b e new).map (fun r => (r, tp))
-    | _, _ => none
+      | .error e => .error e
+      | .ok (new, tp) =>
+        match setSlice ind b e new with
+        | some r => .ok (r, tp)
+        | none => .error .raised
+    | _, _ => .error .raised
 
 /-- `mutNodeReplacement` (gp.py:778-801) -/
-def mutNodeReplacement (ind : List Prim) (ps : Pset) (tp : Tape) : Option (List Prim × Tape) :=
-  if ind.length < 2 then some (ind, tp)                                 -- :786
+def mutNodeReplacement (ind : List Prim) (ps : Pset) (tp : Tape) : R (List Prim × Tape) :=
+  if ind.length < 2 then .ok (ind, tp)                                  -- :786
   else
     match popRange 1 ind.length tp with                                  -- :789
-    | none => none
-    | some (index, tp) =>
+    | .error e => .error e
+    | .ok (index, tp) =>
       match ind[index]? with
-      | none => none
+      | none => .error .raised
       | some node =>
         if node.arity = 0 then                                           -- :792
           match popChoice (ps.terms node.ret) tp with                    -- :793
-          | none => none
-          | some (term, tp) =>
+          | .error e => .error e
+          | .ok (term, tp) =>
             match instantiate term tp with                               -- :794-795
-            | none => none
-            | some (term, tp) => (setItem ind index term).map (fun r => (r, tp))
+            | .error e => .error e
+            | .ok (term, tp) =>
+              match setItem ind index term with
+              | some r => .ok (r, tp)
+              | none => .error .raised
         else
           let prims := (ps.prims node.ret).filter (fun p => p.args == node.args)   -- :798
           match popChoice prims tp with
-          | none => none
-          | some (p, tp) => (setItem ind index p).map (fun r => (r, tp))
+          | .error e => .error e
+          | .ok (p, tp) =>
+            match setItem ind index p with
+            | some r => .ok (r, tp)
+            | none => .error .raised
 
 /-- the `for i in ephemerals_idx` loop (gp.py:826-827) -/
-def reinstAll (ind : List Prim) : List Nat → Tape → Option (List Prim × Tape)
-  | [], tp => some (ind, tp)
+def reinstAll (ind : List Prim) : List Nat → Tape → R (List Prim × Tape)
+  | [], tp => .ok (ind, tp)
   | i :: is, tp =>
     match ind[i]? with
-    | none => none
+    | none => .error .raised
     | some node =>
       match instantiate node tp with
-      | none => none
-      | some (n', tp) =>
+      | .error e => .error e
+      | .ok (n', tp) =>
         match setItem ind i n' with
-        | none => none
+        | none => .error .raised
         | some ind' => reinstAll ind' is tp
 
 /-- `mutEphemeral` (gp.py:804-829); `one = true` ↔ mode `"one"` (other strings raise) -/
-def mutEphemeral (ind : List Prim) (one : Bool) (tp : Tape) : Option (List Prim × Tape) :=
+def mutEphemeral (ind : List Prim) (one : Bool) (tp : Tape) : R (List Prim × Tape) :=
   let idx := idxGo (fun p => p.kind = .eph) ind 0                       -- :818
   if idx.length > 0 then
     if one then
       match popChoice idx tp with                                        -- :824
-      | none => none
-      | some (i, tp) => reinstAll ind [i] tp
+      | .error e => .error e
+      | .ok (i, tp) => reinstAll ind [i] tp
     else reinstAll ind idx tp
-  else some (ind, tp)
+  else .ok (ind, tp)
 
 /-- the `for i, arg_type in enumerate(new_node.args)` loop of `mutInsert` (gp.py:859-866),
 already producing the final `new_subtree` content after the slice replacement at `position`. -/
-def insertArgs (ps : Pset) (sub : List Prim) (position : Nat) : Nat → List Nat → Tape → Option (List Prim × Tape)
-  | _, [], tp => some ([], tp)
+def insertArgs (ps : Pset) (sub : List Prim) (position : Nat) : Nat → List Nat → Tape → R (List Prim × Tape)
+  | _, [], tp => .ok ([], tp)
   | i, a :: as, tp =>
     if i = position then
-      (insertArgs ps sub position (i + 1) as tp).map (fun (r, tp) => (sub ++ r, tp))
+      match insertArgs ps sub position (i + 1) as tp with
+      | .error e => .error e
+      | .ok (r, tp) => .ok (sub ++ r, tp)
     else
       match popChoice (ps.terms a) tp with                               -- :861
-      | none => none
-      | some (term, tp) =>
+      | .error e => .error e
+      | .ok (term, tp) =>
         match instantiate term tp with                                   -- :862-863
-        | none => none
-        | some (term, tp) =>
-          (insertArgs ps sub position (i + 1) as tp).map (fun (r, tp) => (term :: r, tp))
+        | .error e => .error e
+        | .ok (term, tp) =>
+          match insertArgs ps sub position (i + 1) as tp with
+          | .error e => .error e
+          | .ok (r, tp) => .ok (term :: r, tp)
 
 /-- `mutInsert` (gp.py:832-869) -/
-def mutInsert (ind : List Prim) (ps : Pset) (tp : Tape) : Option (List Prim × Tape) :=
+def mutInsert (ind : List Prim) (ps : Pset) (tp : Tape) : R (List Prim × Tape) :=
   match popRange 0 ind.length tp with                                   -- :843
-  | none => none
-  | some (index, tp) =>
+  | .error e => .error e
+  | .ok (index, tp) =>
     match ind[index]?, searchSubtree ind index with                      -- :844-845
     | some node, some (b, e) =>
       let primitives := (ps.prims node.ret).filter (fun p => p.args.contains node.ret)   -- :850
-      if primitives.length = 0 then some (ind, tp)                       -- :852
+      if primitives.length = 0 then .ok (ind, tp)                        -- :852
       else
         match popChoice primitives tp with                               -- :855
-        | none => none
-        | some (newNode, tp) =>
+        | .error e => .error e
+        | .ok (newNode, tp) =>
           let positions := idxGo (fun a => a == node.ret) newNode.args 0
           match popChoice positions tp with                              -- :857
-          | none => none
-          | some (position, tp) =>
+          | .error e => .error e
+          | .ok (position, tp) =>
             match insertArgs ps (getSlice ind b e) position 0 newNode.args tp with
-            | none => none
-            | some (newSub, tp) => (setSlice ind b e (newNode :: newSub)).map (fun r => (r, tp))  -- :867-868
-    | _, _ => none
+            | .error e => .error e
+            | .ok (newSub, tp) =>
+              match setSlice ind b e (newNode :: newSub) with            -- :867-868
+              | some r => .ok (r, tp)
+              | none => .error .raised
+    | _, _ => .error .raised
 
 /-- the `for _ in range(arg_idx + 1)` loop (gp.py:892-895): returns the last `rslice` -/
 def nthArgSpan (ind : List Prim) : Nat → Nat → Option (Nat × Nat)
@@ -505,57 +559,65 @@ def nthArgSpan (ind : List Prim) : Nat → Nat → Option (Nat × Nat)
     | some (b, e) => nthArgSpan ind k (rindex + (getSlice ind b e).length)
 
 /-- `mutShrink` (gp.py:872-900) -/
-def mutShrink (ind : List Prim) (tp : Tape) : Option (List Prim × Tape) :=
-  if ind.length < 3 then some (ind, tp)                                  -- :880 (`or` short-circuits)
+def mutShrink (ind : List Prim) (tp : Tape) : R (List Prim × Tape) :=
+  if ind.length < 3 then .ok (ind, tp)                                   -- :880 (`or` short-circuits)
   else
   match heightL ind with
-  | none => none
+  | none => .error .raised
   | some h =>
-    if h ≤ 1 then some (ind, tp)                                         -- :880
+    if h ≤ 1 then .ok (ind, tp)                                          -- :880
     else
       -- :884-886; the tuples `(i, node)` are represented by `i` (`node = individual[i]`)
       let iprims := idxFrom1 (fun p => p.kind = .prim && p.args.contains p.ret) ind
       if iprims.length ≠ 0 then
         match popChoice iprims tp with                                   -- :889
-        | none => none
-        | some (index, tp) =>
+        | .error e => .error e
+        | .ok (index, tp) =>
           match ind[index]? with
-          | none => none
+          | none => .error .raised
           | some prim =>
           let cands := idxGo (fun a => a == prim.ret) prim.args 0
           match popChoice cands tp with                                  -- :890
-          | none => none
-          | some (argIdx, tp) =>
+          | .error e => .error e
+          | .ok (argIdx, tp) =>
             match nthArgSpan ind argIdx (index + 1), searchSubtree ind index with
             | some (rb, re), some (b, e) =>
-              (setSlice ind b e (getSlice ind rb re)).map (fun r => (r, tp))   -- :898
-            | _, _ => none
-      else some (ind, tp)
+              match setSlice ind b e (getSlice ind rb re) with           -- :898
+              | some r => .ok (r, tp)
+              | none => .error .raised
+            | _, _ => .error .raised
+      else .ok (ind, tp)
 
 /-! ## `staticLimit` (gp.py:908-949) -/
 
 /-- the `for i, ind in enumerate(new_inds)` loop: `keep` = deep copies of the arguments taken
 before the operator ran, `new` = what the operator returned. -/
 def staticLimitLoop (key : List Prim → Option Nat) (maxv : Nat) (keep : List (List Prim)) :
-    List (List Prim) → Tape → Option (List (List Prim) × Tape)
-  | [], tp => some ([], tp)
+    List (List Prim) → Tape → R (List (List Prim) × Tape)
+  | [], tp => .ok ([], tp)
   | ind :: rest, tp =>
     match key ind with
-    | none => none
+    | none => .error .raised
     | some k =>
       if k > maxv then                                                   -- :943
         match popChoice keep tp with                                     -- :944
-        | none => none
-        | some (r, tp) => (staticLimitLoop key maxv keep rest tp).map (fun (o, tp) => (r :: o, tp))
-      else (staticLimitLoop key maxv keep rest tp).map (fun (o, tp) => (ind :: o, tp))
+        | .error e => .error e
+        | .ok (r, tp) =>
+          match staticLimitLoop key maxv keep rest tp with
+          | .error e => .error e
+          | .ok (o, tp) => .ok (r :: o, tp)
+      else
+        match staticLimitLoop key maxv keep rest tp with
+        | .error e => .error e
+        | .ok (o, tp) => .ok (ind :: o, tp)
 
 /-- the wrapper: `op` maps the argument trees and the tape to the returned trees -/
 def staticLimit (key : List Prim → Option Nat) (maxv : Nat)
-    (op : List (List Prim) → Tape → Option (List (List Prim) × Tape))
-    (args : List (List Prim)) (tp : Tape) : Option (List (List Prim) × Tape) :=
+    (op : List (List Prim) → Tape → R (List (List Prim) × Tape))
+    (args : List (List Prim)) (tp : Tape) : R (List (List Prim) × Tape) :=
   match op args tp with                                                  -- :941
-  | none => none
-  | some (new, tp) => staticLimitLoop key maxv args new tp                -- keep_inds = copies of args (:940)
+  | .error e => .error e
+  | .ok (new, tp) => staticLimitLoop key maxv args new tp                 -- keep_inds = copies of args (:940)
 
 /-! ## List-level checkers used by the theorems and the driver -/
 
